@@ -870,7 +870,11 @@ class ParserFactory:
 
     # Called by the parser whenever a token doesn't match any rule.
     def p_error(self, token):
-        assert token is not None, "Unknown error, please report this."
+        if token is None:
+            # ply signals an unexpected end of input with token=None.
+            self.errors.append(
+                ('Unexpected end of file.', self.lexer.lex.lineno, self.path))
+            return
         logger.debug('Unexpected %s(%r) at line %d',
                      token.type,
                      token.value,
